@@ -4,6 +4,7 @@ import SqlProofs.MatchSpec
 import SqlProofs.Group.SpecShape
 import SqlProofs.GroupNonEmpty
 import SqlProofs.GroupLeaves
+import SqlProofs.BracketsKept
 /-!
 # C09 — bracketed and block groups are exactly the properly matched pairs
 
@@ -44,5 +45,10 @@ example :
     let isC : Node → Bool := fun k => match k with | .tok _ [41] => true | _ => false
     (specMatch isO isC .Parenthesis [o, a, c, c, o]).map Node.sexp
       = [Node.grp .Parenthesis [o, a, c], c, o].map Node.sexp := by decide
+
+/-- **end to end**: the 19 passes after the six matching passes neither create nor dissolve a Parenthesis/SquareBrackets/Case/If/For/Begin group nor change its leaves (up to Operator re-typing);
+only `align_comments` may append leaves taken from the siblings that immediately follow the group -/
+theorem later_passes_keep_brackets : type_of% @later_pass_brackets := @later_pass_brackets
+theorem brackets_kept_through_group : type_of% @group_brackets_kept := @group_brackets_kept
 
 end Sql.C09
